@@ -10,7 +10,7 @@ RULE = ("programs generated from the full header/body model (lets of any sign/ma
 ASSUMPTIONS = ["reference meaning (vf/meaning.py) reads IR objects through public attributes only",
                "autoload_pulses=False: pulse imports are kept as statements, not loaded"]
 TIERS = {"quick": {"shards": 8, "budget_s": 90}, "thorough": {"shards": 16, "budget_s": 300}}
-REQUIRE = {"derived-circuits-judged": 300, "route:builder": 500, "route:text": 50, "route:build": 50, "route:build-lists": 50, "lit:float-exp": 5, "node:subcircuit_block": 20, "map:6": 20, "node:macro": 20}
+REQUIRE = {"shards-whose-first-program-writes-integral-floats": 2, "derived-circuits-judged": 300, "route:builder": 500, "route:text": 50, "route:build": 50, "route:build-lists": 50, "lit:float-exp": 5, "node:subcircuit_block": 20, "map:6": 20, "node:macro": 20}
 
 
 def build_circuit(prog, route, bseed=0):
@@ -208,6 +208,13 @@ def shard(ctx):
     n = ctx.scale(48000, 300000)
     seen = {}
     i = 0
+    if ctx.index % 2 == 1:
+        # whatever a process remembers from the first time it wrote a number: in every other shard the first program holds
+        # the small integral values as FLOATS (in the other shards they first occur as integers, as sizes and indices)
+        warm = ("circuit", ("register", "q", 2), ("gate", "wf", ("array_item", "q", 0)) + tuple(float(k) for k in range(2, 13)) + (-1.0, -2.0, -3.0, 100.0),
+                ("gate", "wi", ("array_item", "q", 1)) + tuple(range(2, 13)))
+        process(ctx, {"prog": warm, "route": "text"}, seen)
+        rec.count("shards-whose-first-program-writes-integral-floats")
     while i < n and not rec.expired():
         i += 1
         rng = ctx.rng
